@@ -55,6 +55,9 @@ def build_scenario(case, variant):
     """Materialise the scenario of a case in one array representation."""
     L = lib.lib()
     base = np.array(case['pts'], dtype=float)
+    bigint = bool(case.get('bigint'))
+    if bigint:
+        base = base * float(2 ** 31)       # same shape, integral, exactly representable, products > 2^63
     n = len(base)
 
     def rep(a, integral_ok=True):
@@ -74,7 +77,7 @@ def build_scenario(case, variant):
         if variant == 'int64':   # only value arrays whose entries are all integral have an int64 twin
             # ... and only below 2^30: products of larger integers overflow int64 silently inside
             # NumPy (observed in knee_ranking.distances / rect_overlap on the pinned tree; see DESIGN 9.2)
-            ok = np.all(a == np.floor(a)) and (a.size == 0 or float(np.max(np.abs(a))) < 2 ** 30)
+            ok = np.all(a == np.floor(a)) and (a.size == 0 or float(np.max(np.abs(a))) < 2 ** 30 or bigint)
             return a.astype(np.int64) if ok else np.ascontiguousarray(a.copy())
         raise ValueError(variant)
     s = Scn()
@@ -558,6 +561,7 @@ def dtype_cases(draw, tier):
     """Integer-valued curves through the entry points that take a whole curve: int64 vs float64."""
     case = draw(dyn_cases(tier, force_integral=True, names=[n for n in DTYPE_FOCUS if n in TABLE]))
     case['kind'] = 'dtype'
+    case['bigint'] = draw(st.integers(0, 5)) == 0
     return case
 
 
@@ -574,12 +578,17 @@ def oracle_dtype(case, rec):
     del rec.violations[n0:]
     if b0 != a0 or b1 != a1:
         rec.fail('impure:%s' % fn, 'argument modified')
+    big = bool(case.get('bigint'))
+    # coordinates of 2^31 and more: products exceed int64 inside NumPy (known finding, one label)
+    label = 'int64-overflow' if big else 'layout:int64:%s' % fn
+    if big:
+        rec.tag('dtype:coordinates>=2^31')
     if (out is FAILED) != (o2 is FAILED):
-        rec.fail('layout:int64:%s' % fn, 'raises only for one of the int64 / float64 representations')
+        rec.fail(label, '%s raises only for one of the int64 / float64 representations' % fn)
     elif out is not FAILED:
         d = same(out, o2, exact=False)
         if d:
-            rec.fail('layout:int64:%s' % fn, d)
+            rec.fail(label, '%s: %s' % (fn, d[:300]))
         rec.nontrivial = True
 
 
